@@ -8,13 +8,14 @@ From UV Require Import Base.Common Model.Wire Model.Varint Model.Ext.
 Definition all_lt (bound : N) (l : list N) : bool := forallb (fun x => x <? bound) l.
 
 (* Internal state coherent: the unexported length cache of UtlsPreSharedKeyExtension
-   is unset or current, and without a session the extension is empty. Every other
-   type has no hidden state that Len and Read could disagree about. *)
+   (set by the first Len() call) is unset or current; FakePreSharedKeyExtension only
+   serialises binders of a TLS 1.3 hash size. Every other type has no hidden state
+   that Len and Read could disagree about. *)
 Definition state_ok (e : ext) : bool :=
   match e with
   | EUtlsPreSharedKey s c _ ids bs =>
       if s then match c with None => true | Some l => l =? psk_ext_len ids bs end
-      else psk_ext_len ids bs =? 0
+      else true
   | EFakePreSharedKey _ _ bs => forallb (fun b => valid_binder_len (blen b)) bs
   | _ => true
   end.
@@ -90,7 +91,8 @@ Definition ext_absent (e : ext) : bool :=
   match e with
   | ESNI host => blen host =? 0
   | EPadding _ w _ => negb w
-  | EUtlsPreSharedKey _ _ _ ids bs | EFakePreSharedKey _ ids bs => psk_ext_len ids bs =? 0
+  | EUtlsPreSharedKey s c _ ids bs => utls_psk_len s c ids bs =? 0
+  | EFakePreSharedKey _ ids bs => psk_ext_len ids bs =? 0
   | _ => false
   end.
 
